@@ -31,10 +31,12 @@ pub struct Log {
     pub budget: AtomicI64,
     pub noise: u64,
     pub folders: AtomicU64,
+    /// when >= 0: the consumer panics (injected) when this countdown reaches zero
+    pub panic_in: AtomicI64,
 }
 impl Log {
     pub fn new(budget: i64, noise: u64) -> Log {
-        Log { leaves: Mutex::new(Vec::new()), budget: AtomicI64::new(budget), noise, folders: AtomicU64::new(0) }
+        Log { leaves: Mutex::new(Vec::new()), budget: AtomicI64::new(budget), noise, folders: AtomicU64::new(0), panic_in: AtomicI64::new(-1) }
     }
     pub fn delivered(&self) -> Vec<(u32, u16)> {
         let mut v: Vec<(u32, u16)> = self.leaves.lock().unwrap().iter().flatten().copied().collect();
@@ -100,6 +102,11 @@ impl<'a, T, F: Fn(&T) -> (u32, u16) + Sync> Folder<T> for LogFolder<'a, T, F> {
     type Result = ();
     fn consume(mut self, item: T) -> Self {
         let id = (self.idf)(&item);
+        if self.log.panic_in.load(Ordering::Relaxed) >= 0 && self.log.panic_in.fetch_sub(1, Ordering::SeqCst) == 0 {
+            // the item is dropped by the unwinding; what this folder received so far is logged first
+            self.log.leaves.lock().unwrap().push(std::mem::take(&mut self.got));
+            std::panic::panic_any(crate::util::Injected("consumer"));
+        }
         self.got.push(id);
         if self.log.budget.load(Ordering::Relaxed) != i64::MAX {
             self.log.budget.fetch_sub(1, Ordering::SeqCst);
@@ -376,6 +383,69 @@ fn set_table_delivery(c: &mut Ctx, rng: &mut Rng) {
     }
 }
 
+/// A consumer that panics after k items (a user callback panicking inside a parallel drain):
+/// after the panic has propagated, the map must be a valid collection, nothing may be dropped twice,
+/// and every element is either still in the map or has been dropped exactly once.
+fn panicking_consumer<K: Elem, V: Elem>(c: &mut Ctx, rng: &mut Rng) {
+    let n = if c.is_miri() { 24 } else { *rng.pick(&[5u32, 17, 40, 200, 2000]) };
+    let threads = if c.is_miri() { 2 } else { *rng.pick(&[1usize, 2, 4, 16]) };
+    let mut d = Json::obj();
+    d.set("case", Json::s(format!("consumer panicking inside par_drain/into_par_iter of HashMap<{},{}> with {} keys on {} thread(s)", K::NAME, V::NAME, n, threads)));
+    c.describe(d);
+    let p = pool(threads);
+    for _ in 0..4 {
+        for which in 0..2u64 {
+            c.evaluations += 1;
+            let m: M<K, V> = big_map(n, rng.chance(1, 2), rng);
+            let len = m.len();
+            let k = rng.below(len as u64 + 1) as i64;
+            let what = format!("HashMap<{},{}>::{} with a consumer panicking at item {} of {} on {} thread(s)", K::NAME, V::NAME, if which == 0 { "into_par_iter" } else { "par_drain" }, k, len, threads);
+            c.log(what.clone());
+            let live0 = elem::live_now();
+            let log = Log::new(i64::MAX, rng.next());
+            log.panic_in.store(k, Ordering::SeqCst);
+            let f = |x: &(K, V)| (x.0.id(), x.0.gen());
+            let mut m = m;
+            let r = if which == 0 {
+                let owned = std::mem::replace(&mut m, M::with_hasher_in(PlanBH::default(), CkAlloc));
+                crate::util::catch(|| p.install(|| owned.into_par_iter().drive_unindexed(LogConsumer::new(&log, &f))))
+            } else {
+                crate::util::catch(|| p.install(|| m.par_drain().drive_unindexed(LogConsumer::new(&log, &f))))
+            };
+            let panicked = r.is_err();
+            if let Err(pl) = &r {
+                crate::check!(crate::util::is_injected(pl), "{}: a different panic came out: {}", what, crate::util::payload_str(pl));
+                c.bump("consumer_panics_propagated");
+            }
+            // the collection is valid: len() == number yielded, structure intact, every yielded element live
+            let dump = m.verif_dump();
+            crate::validate::check_safety(&dump, &what);
+            let mut yielded = 0;
+            for (kk, vv) in m.iter() {
+                kk.check();
+                vv.check();
+                yielded += 1;
+            }
+            crate::check!(yielded == m.len(), "{}: after the panic len() = {} but iter() yields {}", what, m.len(), yielded);
+            let remaining = m.len() as u64;
+            m.insert(K::make(0, 4), V::make(0, 4));
+            m.clear();
+            drop(m);
+            let per = K::TRACKED as u64 + V::TRACKED as u64;
+            if per > 0 {
+                let live1 = elem::live_now();
+                if live1 + len as u64 * per != live0 {
+                    crate::viol!(
+                        "{}: {} tracked element(s) neither present nor dropped after the consumer's panic (panicked: {}, {} entries were still in the map)",
+                        what, (live1 + len as u64 * per) as i64 - live0 as i64, panicked, remaining
+                    );
+                }
+            }
+            c.sig_parts(&[60 + which, panicked as u64, (k == 0) as u64, threads as u64]);
+        }
+    }
+}
+
 /// The real RawIterRange::split along explicit decision trees.
 fn split_trees(c: &mut Ctx, rng: &mut Rng) {
     let w = hashbrown::verif::GROUP_WIDTH;
@@ -506,7 +576,8 @@ fn equivalences(c: &mut Ctx, rng: &mut Rng) {
 }
 
 pub fn run(c: &mut Ctx) {
-    c.run_scenarios(|c, idx, rng| match crate::util::mix(idx) % 8 {
+    c.run_scenarios(|c, idx, rng| match crate::util::mix(idx) % 9 {
+        8 => panicking_consumer::<T24, T24>(c, rng),
         0 | 1 => map_delivery::<T24, T24>(c, rng),
         2 => map_delivery::<P8, P8>(c, rng),
         3 => short_circuit::<T24, T24>(c, rng),
